@@ -3,6 +3,7 @@ import RactorModel.Lemmas.LifeC03
 import RactorModel.Lemmas.LifeC03Spec
 import RactorModel.Lemmas.LifeWorld
 import RactorModel.Lemmas.LifeLive
+import RactorModel.Lemmas.LifeDrain
 
 /-!
 # C03 — Kill > stop > supervision > messages; stop is graceful, kill immediate
@@ -399,6 +400,59 @@ example : ((Actor.init 0).run [.spawn none none true false true, .stop none,
 example : ((Actor.init 0).run [.spawn none none true false true, .resume ⟨[], .ok⟩, .pollSpawn true, .poll,
     .resume ⟨[], .ok⟩, .send 1, .poll, .abort]).1.status = .stopped := by decide
 
+/-! ### Liveness of `drain` (wave 2)
+
+`DrainPend a`: the drain marker is in the mailbox (or `post_stop` is open). `dmeas a` = phase rank + number of
+supervision events queued + number of mailbox items in front of the marker: what the loop still has to do before
+it picks the marker. The only way the environment can add to it is a supervision event handed to the port
+(`supCount ops`, one each) — messages sent later go BEHIND the marker (or are refused). -/
+
+/-- The first `drain()` on a live actor puts the marker into the mailbox. -/
+theorem drain_enqueues_marker (a : Actor) (h : Alive a) (hm : a.markerSent = false) :
+    Item.drain ∈ (a.step .drain).1.msgQ ∧ Ev.drainRet true ∈ evs (a.step .drain).2 := by
+  have hpo : a.portsOpen = true := by
+    obtain ⟨h1, h2, _⟩ := h
+    cases hp : a.phase <;> simp_all [Actor.portsOpen]
+  have e : (a.stepCore .drain) = ((apiDrain a).1, [.ev (.drainRet (apiDrain a).2)]) := by
+    simp [Actor.stepCore, h.1, Actor.envOp]
+  have e2 : Item.drain ∈ (apiDrain a).1.msgQ ∧ (apiDrain a).2 = true := by
+    simp [apiDrain, hm, hpo, Actor.portsOpen]
+    cases hp : a.phase <;> simp_all [Actor.portsOpen]
+  constructor
+  · show Item.drain ∈ (a.stepCore .drain).1.msgQ
+    rw [e]; exact e2.1
+  · rw [step_eq, e, e2.2]; simp
+
+/-- **Drain progress, all environments.** The marker stays queued until the loop picks it, the measure grows by at
+most one per supervision event handed in and falls with every effective poll. -/
+theorem drain_pending_progress (a : Actor) (h : Alive a) (hs : DrainPend a) (ops : List AOp) :
+    Dead (a.run ops).1 ∨
+    (Alive (a.run ops).1 ∧ DrainPend (a.run ops).1 ∧
+      dmeas (a.run ops).1 + effCount a ops ≤ dmeas a + supCount ops) :=
+  drain_run ops a h hs
+
+/-- **Drain reaches Stopped.** With the marker enqueued, a continuation that contains as many effective polls as
+`dmeas a` plus the supervision events it hands in (every handler that is or becomes open returns after finitely many
+resumes, the task keeps being polled, the supervision traffic is finite) ends `Stopped` with the guard disarmed. -/
+theorem drain_reaches_stopped (a : Actor) (h : Alive a) (hd : Item.drain ∈ a.msgQ) (ops : List AOp)
+    (hfair : dmeas a + supCount ops ≤ effCount a ops) :
+    (a.run ops).1.status = .stopped ∧ (a.run ops).1.armed = false ∧ (a.run ops).1.phase = .done := by
+  rcases drain_run ops a h (Or.inl hd) with hx | ⟨h1, _, h3⟩
+  · exact ⟨hx.2.1, hx.2.2.1, hx.1⟩
+  · have := dmeas_pos h1; omega
+
+-- two messages queued before the marker, one supervision event arrives meanwhile: measure 2+0+2 = 4, +1
+example : dmeas ((Actor.init 0).run [.spawn none none true false true, .resume ⟨[], .ok⟩, .pollSpawn true, .poll,
+    .send 1, .send 2, .drain]).1 = 4 := by decide
+example : ((Actor.init 0).run [.spawn none none true false true, .resume ⟨[], .ok⟩, .pollSpawn true, .poll,
+    .send 1, .send 2, .drain,
+    .resume ⟨[], .ok⟩, .poll, .supArrive (.started 7), .send 3, .resume ⟨[], .ok⟩, .poll, .resume ⟨[], .ok⟩, .poll,
+    .resume ⟨[], .ok⟩, .poll, .resume ⟨[], .ok⟩, .poll]).1.status = .stopped := by decide
+example : effCount ((Actor.init 0).run [.spawn none none true false true, .resume ⟨[], .ok⟩, .pollSpawn true, .poll,
+    .send 1, .send 2, .drain]).1
+    [.resume ⟨[], .ok⟩, .poll, .supArrive (.started 7), .send 3, .resume ⟨[], .ok⟩, .poll, .resume ⟨[], .ok⟩, .poll,
+    .resume ⟨[], .ok⟩, .poll, .resume ⟨[], .ok⟩, .poll] = 5 := by decide
+
 end C03
 
 #print axioms C03.priority
@@ -427,3 +481,6 @@ end C03
 #print axioms C03.stop_reaches_stopped_5
 #print axioms C03.abort_reaches_stopped
 #print axioms C03.drop_spawn_reaches_stopped
+#print axioms C03.drain_enqueues_marker
+#print axioms C03.drain_pending_progress
+#print axioms C03.drain_reaches_stopped
